@@ -420,6 +420,8 @@ def run_overlay(case, ctx):
             if k == 2:
                 # three columns in the first container, so that a NaN-free multi-column 2-D block can precede a block with holes
                 seqs += [((('x',), ('a', 'b', 'c')), s2) for s2 in ((('x',), ('c', 'a')), (('x', 'y'), ('b', 'c')))]
+                # ... and a later container that brings a NEW row and a NEW column (both axes of the first container are re-laid at once)
+                seqs += [((('x',), ('a', 'b', 'c')), s2) for s2 in ((('x', 'y'), ('b', 'd')), (('y',), ('d',)))]
             for shape_seq in seqs:
                 ncell = [len(r) * len(c) for r, c in shape_seq]
                 three = len(shape_seq[0][1]) == 3
@@ -436,7 +438,7 @@ def run_overlay(case, ctx):
                         for c in cols:
                             colv = []
                             for r in rows:
-                                v = miss if mask[b] else (100 * (i + 1) + 10 * 'abc'.index(c) + 'xyz'.index(r) + 0.5)
+                                v = miss if mask[b] else (100 * (i + 1) + 10 * 'abcd'.index(c) + 'xyz'.index(r) + 0.5)
                                 b += 1
                                 grid[(r, c)] = v
                                 colv.append(v)
@@ -458,6 +460,8 @@ def run_overlay(case, ctx):
                         rset = set().union(*rs) if union else set(rs[0]).intersection(*rs[1:])
                         cset = set().union(*cs) if union else set(cs[0]).intersection(*cs[1:])
                         info = dict(kind=kind, shapes=shape_seq, masks=masks, union=union, first_layout=lay)
+                        if not rset or not cset:
+                            continue   # an intersection without rows or columns: no cell to place, outside the claim
                         try:
                             res = sf.Frame.from_overlay(frames, union=union)
                         except Exception as e:
@@ -467,6 +471,34 @@ def run_overlay(case, ctx):
                         if set(gr) != rset or set(gc) != cset or len(gr) != len(rset) or len(gc) != len(cset):
                             ctx.violation(f'from_overlay|labels|union={union}', **info, got=(gr, gc), expected=(sorted(rset), sorted(cset)))
                             continue
+                        if union and three and len(cset) >= 2:
+                            # the same overlay onto explicitly given axes: all rows, the columns without the first container's last one, in reverse order
+                            ctx.transition()
+                            xcols = [c for c in sorted(cset, reverse=True) if c != shape_seq[0][1][-1]]
+                            xrows = sorted(rset)
+                            try:
+                                rx = sf.Frame.from_overlay(frames, index=xrows, columns=xcols)
+                                gx, grx, gcx = frame_cells(rx, 0)
+                                bad = None
+                                if grx != xrows or gcx != xcols:
+                                    bad = ('labels', (grx, gcx))
+                                else:
+                                    for r in xrows:
+                                        for c in xcols:
+                                            e = miss
+                                            for g in cell_lists:
+                                                if (r, c) in g and not is_missing(g[(r, c)]):
+                                                    e = g[(r, c)]
+                                                    break
+                                            if not eqv(gx[(r, c)], e):
+                                                bad = ('cell', (r, c), norm(gx[(r, c)]), norm(e))
+                                                break
+                                        if bad:
+                                            break
+                                if bad:
+                                    ctx.violation(f'from_overlay|explicit-axes|{bad[0]}', **info, rows=xrows, columns=xcols, detail=repr(bad[1:]))
+                            except Exception as e:
+                                ctx.violation(f'from_overlay|explicit-axes|raises|{type(e).__name__}', **info, rows=xrows, columns=xcols, error=repr(e))
                         for r in gr:
                             for c in gc:
                                 e = miss
